@@ -11,6 +11,12 @@
 // application connection). Operations on unmanaged mutexes, atomics and channels are not scheduling points;
 // they execute atomically between two points, which is sound as long as no scheduling point lies inside a
 // critical section of an unmanaged mutex.
+//
+// Scheduling points lie BEFORE acquiring operations (Lock, RLock) and before the explicit Point calls.
+// Releasing a managed mutex is not a point of its own: the release takes effect together with the segment
+// that precedes it. Nothing is lost by that: whatever another thread could do between the last visible
+// operation of this thread and the release is either blocked by that very mutex or independent of this
+// thread, and everything it can do after the release it can do while this thread is parked at its next point.
 package gosched
 
 import (
@@ -95,6 +101,8 @@ type Sched struct {
 	names   []string
 	OnStep  func() // called by the scheduler before every decision, while all threads are parked
 	MaxStep int
+	// CheckGoroutine verifies at every scheduling point that the caller is the thread the scheduler resumed.
+	CheckGoroutine bool
 }
 
 func New() *Sched { return &Sched{yield: make(chan struct{}), MaxStep: 400} }
@@ -117,7 +125,9 @@ func (s *Sched) Go(name string, f func()) *Thread {
 	s.threads = append(s.threads, t)
 	go func() {
 		<-t.resume
-		t.goid = goid()
+		if s.CheckGoroutine {
+			t.goid = goid()
+		}
 		defer func() {
 			if r := recover(); r != nil {
 				if _, ok := r.(killed); !ok {
@@ -136,9 +146,13 @@ func (s *Sched) Go(name string, f func()) *Thread {
 	return t
 }
 
+// me returns the running managed thread. Exactly one managed goroutine runs at a time, so it is the caller
+// unless an unmanaged goroutine has wandered into a scheduling point; with CheckGoroutine set this is verified
+// through the goroutine id (expensive: a stack header is formatted), harnesses switch it on for a sample of
+// the executions.
 func (s *Sched) me() *Thread {
 	t := s.cur
-	if t == nil || t.goid != goid() {
+	if t == nil || (s.CheckGoroutine && t.goid != goid()) {
 		panic("gosched: a goroutine that is not the running managed thread reached a scheduling point")
 	}
 	return t
@@ -371,8 +385,7 @@ func (m *Mutex) Unlock() {
 		m.mu.Unlock()
 		return
 	}
-	m.s.Point("Unlock " + m.name)
-	m.held = false
+	m.held = false // releasing is not a scheduling point, see the package comment
 }
 
 func (m *Mutex) TryLock() bool {
@@ -398,7 +411,9 @@ type RWMutex struct {
 	pendingW int
 }
 
-func (m *RWMutex) Manage(s *Sched, name string) { m.s, m.name, m.w, m.r, m.pendingW = s, name, false, 0, 0 }
+func (m *RWMutex) Manage(s *Sched, name string) {
+	m.s, m.name, m.w, m.r, m.pendingW = s, name, false, 0, 0
+}
 
 // Managed reports whether the mutex is under a scheduler.
 func (m *RWMutex) Managed() bool { return m.s != nil }
@@ -422,7 +437,6 @@ func (m *RWMutex) Unlock() {
 		m.mu.Unlock()
 		return
 	}
-	m.s.Point("Unlock " + m.name)
 	m.w = false
 }
 
@@ -443,7 +457,6 @@ func (m *RWMutex) RUnlock() {
 		m.mu.RUnlock()
 		return
 	}
-	m.s.Point("RUnlock " + m.name)
 	m.r--
 }
 
